@@ -148,7 +148,7 @@ def c01(pid, tier, replay):
     # key-emulating axes are keys too: their quiescence and their disconnect clean-up belong to C01
     return device_check(pid, tier, replay, ["C01_"], keys_jobs(tier) + axis_jobs("akey", [["ABS_HAT0X"], ["ABS_RX"], ["ABS_GAS"]], tier) + akeymap_jobs(tier),
                         drivers=[devdrivers.random_keys, devdrivers.random_cfg_keys, devdrivers.edge_pitch_collisions, devdrivers.c08_batches,
-                                 devdrivers.akey_mapping_batches, devdrivers.two_handler_key_batches],
+                                 devdrivers.akey_mapping_batches, devdrivers.two_handler_key_batches, devdrivers.tight_key_batches],
                         assumptions=ASSUME_DEV)
 
 
@@ -167,7 +167,8 @@ def c03(pid, tier, replay):
             jobs.append(J("collide", Variant="collide", Mode=m, OctB=0, ChanB=1))
         else:
             jobs.append(J("collide", Variant="collide", Mode=m, OctB=1, ChanB=1, split=4))
-    return device_check(pid, tier, replay, ["C03_"], jobs, drivers=[devdrivers.random_keys, devdrivers.random_cfg_keys, devdrivers.edge_pitch_collisions],
+    return device_check(pid, tier, replay, ["C03_"], jobs, drivers=[devdrivers.random_keys, devdrivers.random_cfg_keys, devdrivers.edge_pitch_collisions,
+                                 devdrivers.tight_key_batches],
                         assumptions=ASSUME_DEV)
 
 
@@ -1325,6 +1326,29 @@ def c16(pid, tier, replay):
     axw = [[{"ev": "axis", "a": rg.choice(["ABS_X", "ABS_Y", "ABS_Z", "ABS_RX"]), "raw": rg.choice([-128, 127, 0, 64, -64, 100])} for _ in range(40)]
            + [{"ev": "disconnect"}] for _ in range(8)]
     iso_batches.append({"cfg": axc, "cfgmode": "literal", "sub": "", "walks": axw})
+    # the application's arrangement of the MIDI output: ONE channel of 8 slots for all devices, one reader.  Half of the
+    # devices keep it full (panic bursts), the others play a little and end while holding notes: what each device sends
+    # (told apart by its MIDI channel) is what it sends when it runs alone on such an output
+    skeys = {"KEY_Q": {"n": 60, "o": 0}, "KEY_W": {"n": 62, "o": 0}, "KEY_E": {"n": 64, "o": 0}, "KEY_R": {"n": 65, "o": 0}}
+    for mode in (["interrupt"] if tier == "quick" else MODES):
+        sc = devdrivers.base_cfg(mode=mode, dChan=rg.randrange(8), actions={"KEY_F6": "channel_up", "KEY_ESC": "panic"},
+                                 maps=[{"name": "M1", "keys": skeys, "axes": {}}])
+        sw = []
+        for i in range(8):
+            w = []
+            for _ in range(i):
+                w += [{"ev": "press", "k": "KEY_F6"}, {"ev": "release", "k": "KEY_F6"}]
+            if i % 2 == 0:      # plays, then ends with notes held
+                for _ in range(25):
+                    k = rg.choice(sorted(skeys))
+                    w += [{"ev": "press", "k": k}, {"ev": "release", "k": k}]
+                w += [{"ev": "press", "k": k} for k in rg.sample(sorted(skeys), 3)]
+            else:               # floods
+                for _ in range(12 if tier == "quick" else 30):
+                    k = rg.choice(sorted(skeys))
+                    w += [{"ev": "press", "k": "KEY_ESC"}, {"ev": "release", "k": "KEY_ESC"}, {"ev": "press", "k": k}, {"ev": "release", "k": k}]
+            sw.append(w + [{"ev": "disconnect"}])
+        iso_batches.append({"cfg": sc, "cfgmode": "literal", "sub": "", "walks": sw, "shared_out": 8, "slow_us": 100})
     bp = scr.fresh("iso") + ".json"
     with open(bp, "w") as f:
         json.dump(iso_batches, f)
